@@ -346,14 +346,20 @@ func OracleC02(w *World, h *History) {
 			continue
 		}
 		// did anything other than the handler's own return end the RPC?
-		disturbed := false
+		disturbed := hr.CtxDoneAtEnd
+		hasCancel := p.Deadline > 0
 		for _, o := range r.Ops {
 			if o.Op == OpCancel {
-				disturbed = true
+				hasCancel = true
 			}
 		}
-		if p.Deadline > 0 || hr.CtxDoneAtEnd {
-			disturbed = true
+		if hasCancel {
+			// a cancellation that lost the race against normal completion leaves a
+			// normal outcome, which must then be complete (C07: never a mixture)
+			t0 := r.Terminal()
+			if t0 == nil || !(t0.Res.Err == nil || (t0.Op == OpRecv && t0.Res.Err == io.EOF)) {
+				disturbed = true
+			}
 		}
 		if disturbed {
 			continue
